@@ -435,15 +435,34 @@ struct Cand {
     state: u32,
     oi: u32,
     op: Op,
-    key: Vec<u8>,
+    key: u128,
 }
 
 #[derive(Default)]
 struct WorkerOut {
     cands: Vec<Cand>,
+    /// keys this worker has already proposed at this level (it meets its states in increasing order, so the first
+    /// proposal of a key is the one with the smallest (state, operation) - dropping the later ones changes nothing)
+    proposed: HashSet<u128>,
     transitions: u64,
     max_nodes: usize,
 }
+
+/// States are merged on a 128-bit hash of their canonical key (SipHash with fixed keys over the key and over the key
+/// with a suffix): with 10^8 states the probability of any collision is below 10^-22, and the table stays small
+/// enough for the deep bounds of the thorough tier.
+fn digest(key: &[u8]) -> u128 {
+    use std::hash::Hasher;
+    let mut a = std::collections::hash_map::DefaultHasher::new();
+    a.write(key);
+    let mut b = std::collections::hash_map::DefaultHasher::new();
+    b.write(key);
+    b.write(&[0xA5, 0x5A, 0x3C]);
+    ((a.finish() as u128) << 64) | b.finish() as u128
+}
+
+/// no level may grow beyond this many new states (memory); the search then ends with the depth it completed
+const MAX_FRONTIER: usize = 6_000_000;
 
 /// breadth-first exploration; every violation is reported to `run`
 pub fn explore(run: &Run, cfg: &Explore) -> ExpStats {
@@ -453,7 +472,7 @@ pub fn explore(run: &Run, cfg: &Explore) -> ExpStats {
 /// `parallel == false`: runs inline on the calling thread and records no family (for use inside a worker)
 pub fn explore_with(run: &Run, cfg: &Explore, parallel: bool) -> ExpStats {
     let mut stats = ExpStats::default();
-    let mut seen: HashSet<Vec<u8>> = HashSet::new();
+    let mut seen: HashSet<u128> = HashSet::new();
     let init_json = cfg.init.json();
     let b0 = match guard(|| cfg.init.build()) {
         Ok(b) => b,
@@ -469,7 +488,7 @@ pub fn explore_with(run: &Run, cfg: &Explore, parallel: bool) -> ExpStats {
             run.violation(&k, format!("{} in the initial store {}", m, init_json), hist_json(cfg.vars, &init_json, &[]));
         }
     }
-    seen.insert(key_of(&b0, cfg.with_memo_key));
+    seen.insert(digest(&key_of(&b0, cfg.with_memo_key)));
     stats.states = 1;
     let mut frontier: Vec<Vec<Op>> = vec![vec![]];
     for level in 0..cfg.depth {
@@ -518,8 +537,8 @@ pub fn explore_with(run: &Run, cfg: &Explore, parallel: bool) -> ExpStats {
                                 if b.nodes.len() == before_nodes.len() {
                                     reusable = !cfg.with_memo_key && r.is_some();
                                 }
-                                let key = key_of(&b, cfg.with_memo_key);
-                                if !seen_ref.contains(&key) {
+                                let key = digest(&key_of(&b, cfg.with_memo_key));
+                                if !seen_ref.contains(&key) && w.proposed.insert(key) {
                                     w.cands.push(Cand { state: si as u32, oi: oi as u32, op: *op, key });
                                 }
                             }
@@ -595,6 +614,16 @@ pub fn explore_with(run: &Run, cfg: &Explore, parallel: bool) -> ExpStats {
         }
         stats.states += next.len() as u64;
         stats.completed_depth = level + 1;
+        if next.len() > MAX_FRONTIER && level + 1 < cfg.depth {
+            run.add_family(FamilyCov {
+                name: format!("{}: all operation sequences up to depth {} ({} variables)", cfg.name, level + 1, cfg.vars),
+                size: stats.states,
+                done: stats.states,
+                exhaustive: true,
+                note: format!("{} transitions; depth {} of the planned {} completed - the next level would start from {} states (cap {})", stats.transitions, level + 1, cfg.depth, next.len(), MAX_FRONTIER),
+            });
+            return stats;
+        }
         frontier = next;
     }
     if !parallel {
